@@ -187,7 +187,7 @@ assert len(REPRESENTATIVE) == 40
 
 # documented illegal spellings that are not expressible as (mods, doc, base) tokens
 RAW_ILLEGAL = ["a#", "3#", "a b#", "#", "a,b", "a, b", "a ,b", "3,4", "*v,w", "a... b", "...a", "a...", "... ...", "*v ...", "... *v", "*v *w",
-               "a *v b *w", "a+1,b"]
+               "a *v b *w", "a+1,b", "a, b min(a,b)", "a, (c)", "2*(c+1) 3,4", "min(a,b) c,d", "(a) b,", "max(a,2) ,"]
 RAW_LEGAL = ["min(a,b)", "max(a,2) a", "a  b", " a b ", "\ta\nb\r", "", " ", "...", "a=3", "rows=a cols=b", "_", "_ _", "*_", "b c _ _",
              "... c h w", "#foo", "*batch", "dim-1", "{size}", "{self.some_value}+3"]
 NON_STRINGS = [3, None, b"a b", ("a", "b"), 2.5, True, 0, ()]
@@ -273,6 +273,23 @@ def run(ctx):
         check_spec(ctx, toks, seps)
 
     ctx.hyp(sequences, max_examples=ctx.n(700, 4000))
+
+    # a comma-separated token is illegal wherever it stands, also next to a (legal) function-call axis with its own comma
+    @given(st.data())
+    def commas(data):
+        toks = data.draw(gd.legal_spec(max_axes=3, bound=["a", "b"], names=["a", "b"], vnames=["v"]))
+        pieces = [t.spelling() for t in toks]
+        if data.draw(st.booleans()):
+            pieces.insert(data.draw(st.integers(0, len(pieces))), data.draw(st.sampled_from(["min(a,b)", "max(a,2)", "(a+1)", "2*(b+1)"])))
+        bad = data.draw(st.sampled_from(["a,b", "a,", ",b", "3,4", "a,b,c", "#a,b", "*v,w", "a+1,b"]))
+        pieces.insert(data.draw(st.integers(0, len(pieces))), bad)
+        spec = " ".join(pieces)
+        kind, res = build(spec)
+        ctx.note(spec, True, classes=["comma-token", f"built-{kind}"])
+        if kind != "ValueError":
+            raise Violation("illegal-accepted" if kind == "ok" else "totality", {"raw": spec}, f"spec {spec!r} with the comma-separated token {bad!r}: {kind} {res if kind != 'ok' else '(accepted)'}")
+
+    ctx.hyp(commas, max_examples=ctx.n(200, 2000))
 
     alphabet = "#*_?=., ()+-{}ab3v0\t\n"
 
